@@ -63,6 +63,16 @@ Models ==
       [nodes |-> <<Nd("Add", <<>>, <<"x", "v">>, <<"a">>), Nd("Mul", <<>>, <<"v", "x">>, <<"m">>), Nd("Relu", <<>>, <<"v">>, <<"r">>)>>,
        inputs |-> <<InD("x", <<DSym, DFix(3)>>)>>, outputs |-> <<"a", "m", "r">>,
        inits |-> [v |-> T("f32", <<1, 3>>, <<-1, 2, -3>>)]],
+    \* views of shared weights, and Constant nodes (the harness builds this model with nodes that carry no name)
+    weight_views |->
+      [nodes |-> <<Nd("Transpose", <<AIs("perm", <<1, 0>>)>>, <<"w">>, <<"wt">>), Nd("MatMul", <<>>, <<"x", "wt">>, <<"y">>),
+                   Nd("Reshape", <<>>, <<"w", "shp">>, <<"rs">>), Nd("Flatten", <<AI("axis", 0)>>, <<"w">>, <<"f">>)>>,
+       inputs |-> <<InD("x", <<DSym, DFix(3)>>)>>, outputs |-> <<"y", "rs", "f">>,
+       inits |-> [w |-> T("f32", <<2, 3>>, <<1, 0, -1, 2, 1, 0>>), shp |-> T("i64", <<2>>, <<3, 2>>)]],
+    two_unnamed_constants |->
+      [nodes |-> <<Nd("Constant", <<AT("value", [dt |-> "f32", shape |-> <<3>>, data |-> <<1, 2, 3>>])>>, <<>>, <<"ca">>), Nd("Add", <<>>, <<"x", "ca">>, <<"ya">>),
+                   Nd("Constant", <<AT("value", [dt |-> "f32", shape |-> <<3>>, data |-> <<-5, -6, -7>>])>>, <<>>, <<"cb">>), Nd("Add", <<>>, <<"x", "cb">>, <<"yb">>)>>,
+       inputs |-> <<InD("x", <<DSym, DFix(3)>>)>>, outputs |-> <<"ya", "yb">>, inits |-> <<>>],
     expand_concat_add |->
       [nodes |-> <<Nd("Expand", <<>>, <<"x", "shp">>, <<"e">>), Nd("Concat", <<AI("axis", 0)>>, <<"x">>, <<"c">>), Nd("Add", <<>>, <<"c", "v">>, <<"s">>)>>,
        inputs |-> <<InD("x", <<DSym, DFix(3)>>)>>, outputs |-> <<"e", "c", "s">>,
@@ -105,7 +115,7 @@ Emit ==
    /\ \A variant \in {sched, Overlap(sched)} :
         P([prop |-> "C17", fam |-> "schedule", kind |-> "sched", op |-> "", attrs |-> <<>>, inputs |-> <<>>, nout |-> 0, allowed |-> NoCrash,
            cmp |-> "num", known |-> <<>>, feat |-> <<mid, IF 0 \in Range(variant) THEN "overlapped" ELSE "serialized">>,
-           x |-> [model |-> [nodes |-> G.nodes, inputs |-> G.inputs, outputs |-> G.outputs, inits |-> InitsSeq(G), opset |-> 13],
+           x |-> [model |-> [nodes |-> G.nodes, inputs |-> G.inputs, outputs |-> G.outputs, inits |-> InitsSeq(G), opset |-> 13, unnamed |-> (mid = "two_unnamed_constants")],
                   runs |-> [r \in RunIds |-> LET s == RunSem(G, [x |-> InputOf(r)]) IN
                                               [ins |-> [x |-> InputOf(r)], allowed |-> IF s.ok THEN MustValue(s.out) ELSE NoCrash]],
                   schedule |-> variant]])
